@@ -468,7 +468,8 @@ pub fn hash_owned_value_normalized(val: &OwnedValue, hasher: &mut impl std::hash
     match val {
         OwnedValue::Null => 0u8.hash(hasher),
         OwnedValue::Int(i) => (*i as f64).to_bits().hash(hasher),
-        OwnedValue::Float(f) => f.to_bits().hash(hasher),
+        // -0.0 == 0.0 (and == Int(0)): equal keys must hash alike
+        OwnedValue::Float(f) => (if *f == 0.0 { 0.0f64 } else { *f }).to_bits().hash(hasher),
         OwnedValue::Text(s) => s.hash(hasher),
         OwnedValue::Bool(b) => b.hash(hasher),
         OwnedValue::Blob(b) => b.hash(hasher),
